@@ -321,6 +321,22 @@ func analyse(dump []byte) (quiescent, soft bool) {
 	return quiescent, soft
 }
 
+// GoID returns the current goroutine's id (parsed from its stack header). Used to give
+// gates reached through package-level hooks an actor-specific label.
+func GoID() uint64 {
+	var buf [64]byte
+	n := runtime.Stack(buf[:], false)
+	// "goroutine 123 [running]:"
+	var id uint64
+	for _, c := range buf[len("goroutine "):n] {
+		if c < '0' || c > '9' {
+			break
+		}
+		id = id*10 + uint64(c-'0')
+	}
+	return id
+}
+
 // Bubble runs f inside a synctest bubble and converts the bubble's deadlock
 // panic into an error string ("" = clean).
 func Bubble(t *testing.T, f func()) (deadlock string) {
